@@ -43,6 +43,21 @@ def r1_ambient(ctx):
     users = {f.key for (f, bb, t) in F.callers_of(lambda c: RDEF in callee_keys(c))}
     users |= {f.key for (f, bi, c) in F.fn_refs(lambda c: RDEF in callee_keys(c))}
     allowed = {"mahf::configuration::Configuration::optimize", "mahf::configuration::Configuration::optimize_with"}
+
+    def only_from_allowed(key, depth=0):
+        """a private helper (or closure) all of whose callers are the allowed entry points (transitively)"""
+        if key in allowed:
+            return True
+        g = F.fn_opt(key)
+        if g is None or depth > 3:
+            return False
+        if g.kind == "Closure":
+            return only_from_allowed(g.parent, depth + 1)
+        if g.vis in ("pub", "public"):
+            return False
+        callers = {c.key for (c, bb, t) in F.callers_of(lambda cc, k=key: k in callee_keys(cc))} | {c.key for (c, bi, cc) in F.fn_refs(lambda cc, k=key: k in callee_keys(cc))}
+        return bool(callers) and all(only_from_allowed(c, depth + 1) for c in callers)
+    users = {u for u in users if not only_from_allowed(u)} | (users & allowed)
     ctx.check(users <= allowed, "C08.R1", RDEF, "callers", "an entropy-seeded generator is created in %s" % sorted(users - allowed), detail=str(sorted(users)))
 
 
@@ -84,10 +99,18 @@ def r3_user_generator_kept(ctx):
         def runf(interp, env, f, args):
             log.append(("run",))
             return ok(Agg("tuple", None, None, []))
-        table = {"mahf::state::registry::StateRegistry::insert": ins, "mahf::state::registry::StateRegistry::contains": contains, "core::ops::function::FnOnce::call_once": call_init,
+        def find(interp, env, f, args):
+            log.append(("contains", (f.get("gargs") or ["?"])[0]))
+            if (f.get("gargs") or [""])[0] != "mahf::state::random::Random":
+                return TOP
+            return ok(Sym("found")) if has else err(Sym("StateError::NotFound"))
+        table = {"mahf::state::registry::StateRegistry::insert": ins, "mahf::state::registry::StateRegistry::contains": contains,
+                 "mahf::state::registry::StateRegistry::has": contains, "mahf::state::registry::StateRegistry::find": find,
+                 "mahf::state::registry::StateRegistry::try_borrow": find, "mahf::state::registry::StateRegistry::try_borrow_mut": find, "core::ops::function::FnOnce::call_once": call_init,
                  "mahf::configuration::Configuration::run": runf, "mahf::state::State::new": Sym("state"), RDEF: Sym("entropy-random"),
                  "core::default::Default::default": Sym("entropy-random")}
-        it = Interp(fn.body, chain(mk_oracle(table), std_oracle), [Sym("self"), Sym("problem"), TOP], facts=F)
+        helper = lambda k: k.startswith("mahf::configuration::Configuration::") and k not in table and (F.fn_opt(k) is not None and F.fn_opt(k).vis not in ("pub", "public"))
+        it = Interp(fn.body, chain(mk_oracle(table), std_oracle), [Sym("self"), Sym("problem"), TOP], facts=F, inline=helper)
         paths = it.run()
         okp = [p for p in paths if p.end == "return" and isinstance(p.ret, Agg) and p.ret.variant == "Ok"]
         if not okp:
@@ -247,7 +270,10 @@ def r5_child_generators(ctx):
                 clo_key = x[2]
                 good = good and not x[4]
         clo = F.fn_opt(clo_key) if clo_key else None
-        if clo is None:
+        fnitem = [x for x in subexprs(cons) if x[0] == "fnconst"]
+        if clo is None and len(fnitem) == 1 and fnitem[0][1] == RND + "::with_rng" and (len(fnitem[0]) < 3 or not fnitem[0][2] or (fnitem[0][2].get("gargs") if isinstance(fnitem[0][2], dict) else None) in (None, ["RNG"])):
+            pass        # `Random::with_rng::<RNG>` used directly as the (capture-free) constructor
+        elif clo is None:
             good = False
         else:
             rr = clo.body.expr_of_local(0)
